@@ -45,8 +45,35 @@ partial def build : List String → Option (Tree × List String)
     | [] => none
   | _ => none
 
+/-- depth / node count / wrong parent links with an explicit work list (the trees can be 10^6 deep) -/
+partial def measure (work : List (Node × Nat)) (depth nodes bad : Nat) : Nat × Nat × Nat :=
+  match work with
+  | [] => (depth, nodes, bad)
+  | (n, d) :: rest =>
+    match n with
+    | .text .. => measure rest (max depth d) (nodes + 1) bad
+    | .elem id _ _ _ cs =>
+      let bad' := cs.foldl (fun acc c => if c.parent == some id then acc else acc + 1) bad
+      measure (cs.foldl (fun acc c => (c, d + 1) :: acc) rest) (max depth d) (nodes + 1) bad'
+
+def deepDoc (n : Nat) (kind : String) : Bytes :=
+  let opens := (List.replicate n [60, 97, 62]).flatten
+  let closes := (List.replicate n [60, 47, 97, 62]).flatten
+  (if kind == "1" then [60, 114, 62] else []) ++ opens ++ (if kind == "2" then [] else closes)
+    ++ (if kind == "1" then [60, 47, 120, 62] else [])
+
+def deepShow (r : Result) : String :=
+  if r.isNull then "deep null" else match r with
+  | .node n =>
+    let (d, k, b) := measure [(n, 1)] 0 0 0
+    s!"deep depth={d} nodes={k} badparents={b}"
+  | .fault => "fault"
+  | .null => "deep null"
+
 def step (_ : Unit) (ts : List String) : Unit × String :=
   let r : String := match ts with
+    | ["deep", n, kind] => match n.toNat? with
+      | some n => deepShow (decode (deepDoc n kind)) | none => "bad-op"
     | ["dec", h] => match unhex h with
       | some d => render (decode d) | none => "bad-op"
     | "enc" :: f :: rest => match build rest with
